@@ -467,15 +467,15 @@ def rule_r6(F, rep):
 
 
 def run(F, rep, tier):
-    rule_r1(F, rep)
-    rule_r2(F, rep)
-    rule_r3(F, rep)
-    rule_r4(F, rep)
-    rule_r5(F, rep)
-    rule_r6(F, rep)
+    rep.attempt(rule_r1, F, rep)
+    rep.attempt(rule_r2, F, rep)
+    rep.attempt(rule_r3, F, rep)
+    rep.attempt(rule_r4, F, rep)
+    rep.attempt(rule_r5, F, rep)
+    rep.attempt(rule_r6, F, rep)
     from . import c04_lit
-    c04_lit.rule(F, rep)
-    c04_lit.rule_strict_flag(F, rep)
+    rep.attempt(c04_lit.rule, F, rep)
+    rep.attempt(c04_lit.rule_strict_flag, F, rep)
     rep.assume("the rewrite-invariance consequence (naming, identity functions, dead code) needs execution and is not "
                "decided; builtins' internal evaluation order is not decided")
     rep.trust("Jsonnet specification: laziness positions, transcribed as rules/c04.py:LAZY")
